@@ -70,8 +70,9 @@ impl C12 {
             max_live: 2,
             max_len: 2,
             values: match tier {
-                Tier::Quick => vec!["a".into(), "".into(), "b c".into()],
-                Tier::Thorough => vec!["a".into(), "".into(), "b c".into(), LOOKALIKE.into(), "é".into()],
+                // "0" and "false" matter: the script-implemented commands decide with truthiness internally
+                Tier::Quick => vec!["a".into(), "".into(), "b c".into(), "0".into()],
+                Tier::Thorough => vec!["a".into(), "".into(), "b c".into(), "0".into(), "false".into(), LOOKALIKE.into(), "é".into()],
             },
             keys: vec!["a".into(), "b c".into()],
             depth: 64,
